@@ -7,13 +7,14 @@ TARGET = os.path.join(ROOT, ".cache", "target")
 BIN = os.path.join(TARGET, "release", "beff-twin")
 REPO = os.environ.get("VERIF_REPO", "/repo")
 
-FAMILY = {"list_shape": "semtype", "bdd_ops": "bdd", "dnf": "dnf", "proper_subtype": "proper", "semtype_ops": "semtype", "to_schema": "schema"}
+FAMILY = {"list_shape": "listfold", "bdd_ops": "bdd", "dnf": "dnf", "proper_subtype": "proper", "semtype_ops": "semtype", "to_schema": "schema"}
 KNOWN_FNS = {
     "bdd": {"union", "intersect", "diff", "complement", "from_node", "from_atom"},
     "dnf": {"bdd_to_dnf", "bdd_to_dnf_recursive", "dnf_to_bdd"},
     "proper": {"union", "intersect", "diff", "complement"},
     "semtype": {"union", "intersect", "diff", "complement"},
     "schema": set(),
+    "listfold": set(),
 }
 
 
@@ -103,7 +104,7 @@ def sanity(pid, seed):
     err = build()
     if err:
         return dict(error="twin build failed: " + err[-400:])
-    fams = {"C06": ["bdd", "dnf", "proper", "semtype"], "C05": ["semtype"], "C04": ["bdd", "dnf", "proper", "semtype"], "C07": ["dnf", "schema"]}.get(pid, [])
+    fams = {"C06": ["bdd", "dnf", "proper", "semtype"], "C05": ["semtype", "listfold"], "C04": ["bdd", "dnf", "proper", "semtype"], "C07": ["dnf", "schema"]}.get(pid, [])
     out = dict(families=fams, rows=[], disagreements=[], wall_s=0)
     for fam in fams:
         rc, rows, stderr = run([fam])
